@@ -24,8 +24,8 @@ type cliObs struct {
 }
 
 func randomCliTree(rng *rand.Rand) []cliEntry {
-	fileCls := []string{"xml", "xml", "xmlbad", "xmlent", "json", "html", "txtjson", "noext", "dangling", "linkxml"}
-	ext := map[string]string{"xml": ".xml", "xmlbad": ".xml", "xmlent": ".xml", "json": ".json", "html": ".html", "txtjson": ".txt", "noext": "", "dangling": ".xml", "linkxml": ".xml"}
+	fileCls := []string{"xml", "xml", "xmlbad", "xmlent", "json", "html", "txtjson", "noext", "dangling", "linkxml", "svg"}
+	ext := map[string]string{"xml": ".xml", "xmlbad": ".xml", "xmlent": ".xml", "json": ".json", "html": ".html", "txtjson": ".txt", "noext": "", "dangling": ".xml", "linkxml": ".xml", "svg": ".svg"}
 	var tree []cliEntry
 	n := 0
 	var add func(in, depth int)
@@ -40,7 +40,9 @@ func randomCliTree(rng *rand.Rand) []cliEntry {
 			return
 		}
 		c := fileCls[rng.Intn(len(fileCls))]
-		tree = append(tree, cliEntry{Name: fmt.Sprintf("f%d%s", n, ext[c]), Cls: c, In: in})
+		// (file names with characters that matter to formatting verbs, shells and prefixes)
+		stem := []string{"f", "f", "f", "p%20q%s", "a b", "x%d"}[rng.Intn(6)]
+		tree = append(tree, cliEntry{Name: fmt.Sprintf("%s%d%s", stem, n, ext[c]), Cls: c, In: in})
 	}
 	for k := 1 + rng.Intn(4); k > 0; k-- {
 		add(0, 0)
@@ -154,7 +156,7 @@ func init() {
 				}
 				pt := fl.T
 				if pt == "" {
-					pt = map[string]string{"xml": "xml", "xmlbad": "xml", "xmlent": "xml", "dangling": "xml", "linkxml": "xml", "json": "json", "html": "html"}[e.Cls]
+					pt = map[string]string{"xml": "xml", "xmlbad": "xml", "xmlent": "xml", "dangling": "xml", "linkxml": "xml", "svg": "xml", "json": "json", "html": "html"}[e.Cls]
 				}
 				var cur xsel.Cursor
 				var rerr error = fmt.Errorf("no type")
